@@ -474,6 +474,7 @@ type cop struct {
 
 type concCase struct {
 	Ordered bool     `json:"ordered"`
+	OwnLock bool     `json:"own_lock,omitempty"` // WithLock(m) with a mutex of the caller instead of Synchronize()
 	Procs   int      `json:"gomaxprocs"`
 	Threads [][]cop  `json:"threads"`
 	History []string `json:"history,omitempty"`
@@ -503,6 +504,8 @@ var setModel = porcupine.Model{
 				n++
 			}
 			return output.(int) == n, st
+		case "Synchronize":
+			return true, st
 		}
 		return false, st
 	},
@@ -514,7 +517,12 @@ func runConc(t vkit.TB, c *concCase, reps int) (overlaps int) {
 	defer runtime.GOMAXPROCS(old)
 	for r := 0; r < reps; r++ {
 		s := &dt.Set[int]{}
-		s.Synchronize()
+		own := &sync.Mutex{}
+		if c.OwnLock {
+			s.WithLock(own)
+		} else {
+			s.Synchronize()
+		}
 		if c.Ordered {
 			s.Order()
 		}
@@ -537,12 +545,36 @@ func runConc(t vkit.TB, c *concCase, reps int) (overlaps int) {
 						h.Call(g, sin{o.Kind, o.V}, func() any { return s.Check(o.V) })
 					case "Len":
 						h.Call(g, sin{o.Kind, 0}, func() any { return s.Len() })
+					case "Synchronize":
+						// "safe to call more than once": changes nothing
+						h.Call(g, sin{o.Kind, 0}, func() any { s.Synchronize(); return true })
 					}
 				}
 			}(g, ops)
 		}
 		close(start)
 		wg.Wait()
+		if c.OwnLock {
+			// the set was given the caller's mutex: while the caller
+			// holds it no operation of the set gets through (a return
+			// during the hold is a violation; not returning within
+			// the short hold proves nothing and passes)
+			own.Lock()
+			through := make(chan struct{})
+			go func() { _ = s.Check(0); close(through) }()
+			select {
+			case <-through:
+				own.Unlock()
+				vkit.Fail(t, tConc, "C18:set/own-lock", c, "a set configured with WithLock(m) answered Check while the caller held m (repetition %d)", r)
+			case <-time.After(500 * time.Microsecond):
+			}
+			own.Unlock()
+			select {
+			case <-through:
+			case <-time.After(vkit.Limit()):
+				vkit.Fail(t, tConc, "C18:set/own-lock", c, "Check has not returned %v after the caller released the mutex given to WithLock", vkit.Limit())
+			}
+		}
 		ops := h.Ops()
 		overlaps += vkit.Overlaps(ops)
 		ok, unknown := vkit.Linearizable(setModel, ops)
@@ -586,6 +618,7 @@ func TestSetLinearizable(t *testing.T) {
 	rapid.Check(t, func(t *rapid.T) {
 		c := &concCase{
 			Ordered: rapid.Bool().Draw(t, "ordered"),
+			OwnLock: rapid.IntRange(0, 2).Draw(t, "ownLock") == 0,
 			Procs:   rapid.SampledFrom([]int{2, 4, 16}).Draw(t, "gomaxprocs"),
 		}
 		ng := rapid.IntRange(2, 4).Draw(t, "goroutines")
@@ -595,7 +628,7 @@ func TestSetLinearizable(t *testing.T) {
 			var ops []cop
 			for i := 0; i < n; i++ {
 				ops = append(ops, cop{
-					Kind:  rapid.SampledFrom([]string{"AddCheck", "AddCheck", "DeleteCheck", "DeleteCheck", "Check", "Len"}).Draw(t, "kind"),
+					Kind:  rapid.SampledFrom([]string{"AddCheck", "AddCheck", "AddCheck", "DeleteCheck", "DeleteCheck", "DeleteCheck", "Check", "Len", "Synchronize"}).Draw(t, "kind"),
 					V:     rapid.IntRange(0, dom-1).Draw(t, "v"),
 					Yield: rapid.IntRange(0, 4).Draw(t, "yield"),
 				})
@@ -603,6 +636,6 @@ func TestSetLinearizable(t *testing.T) {
 			c.Threads = append(c.Threads, ops)
 		}
 		ov := runConc(t, c, reps)
-		vkit.CaseN(tConc, vkit.Hash(*c), reps, ov > 0, []string{fmt.Sprintf("goroutines=%d", ng), fmt.Sprintf("overlap=%v", ov > 0)}, func() any { return *c })
+		vkit.CaseN(tConc, vkit.Hash(*c), reps, ov > 0, []string{fmt.Sprintf("goroutines=%d", ng), fmt.Sprintf("overlap=%v", ov > 0), fmt.Sprintf("own-lock=%v", c.OwnLock)}, func() any { return *c })
 	})
 }
